@@ -16,7 +16,9 @@ PROOF_FILES = ["proofs/Sched_proofs.v", "proofs/Workflow_proofs.v"]
 RULE = ("valid random DAG workflows (1..16 steps; ref / refSwitch / forEach / skipIf / sub-workflows, biased towards "
         "ResourceFunction steps and forEach over ResourceFunctions so that several API calls are in flight), prepared "
         "through the real cache and reconciled by the real reconcile_workflow on a virtual-time event loop; every API "
-        "call (object, method) gets an injected latency; for a workflow with <= 4 (quick) / <= 5 (thorough) calls ALL "
+        "call (object, method) — and every plural lookup (kind, LOOKUP) of a ResourceFunction without `plural`, the lookup "
+        "cache being cold in every pass — gets an injected latency; besides the order plans there are duration plans in which "
+        "one call takes 3.5 / 6 / 9 virtual seconds (still below STEP_TIMEOUT); for a workflow with <= 4 (quick) / <= 5 (thorough) calls ALL "
         "rank permutations of the latencies are run, otherwise random ones, all far below STEP_TIMEOUT; recorded per run: "
         "the full Result, per-step outcomes, evaluations of Logic, API calls and the ORDER in which step tasks and "
         "forEach item tasks finished.  non-trivial = at least two distinct completion orders were observed for the "
@@ -119,16 +121,27 @@ def foreach_order(sc, o):
 
 
 def call_keys(o):
+    """every API call of the pass that can be given a latency: (object, method) and (kind, "LOOKUP") for the plural
+    lookups of ResourceFunctions without `plural`"""
     seen = []
     for c in o["calls"]:
         k = (c["name"], c["method"])
         if k not in seen:
             seen.append(k)
+    for c in o.get("lookups", []):
+        k = (c["kind"], "LOOKUP")
+        if k not in seen:
+            seen.append(k)
     return seen
 
 
+EPS = 0.01
+
+
 def latency_plans(ctx: Ctx, keys):
-    """latency assignments: all rank permutations for few calls, random ones otherwise"""
+    """latency assignments: (a) completion ORDER: all rank permutations for few calls, random ones otherwise;
+    (b) DURATION: "arbitrary latencies below the timeout" — one call (one per method kind present, random otherwise)
+    takes 3.5 / 6 / 9 virtual seconds while all others are quick, so the whole pass still ends below STEP_TIMEOUT"""
     n = len(keys)
     if n == 0:
         return []
@@ -143,6 +156,14 @@ def latency_plans(ctx: Ctx, keys):
             ranks = list(range(1, n + 1))
             ctx.rng.shuffle(ranks)
             plans.append({k: r * unit for k, r in zip(keys, ranks)})
+    slow = []
+    for method in sorted({k[1] for k in keys}):
+        slow.append(ctx.rng.choice([k for k in keys if k[1] == method]))
+    if not ctx.quick():
+        slow += [ctx.rng.choice(keys) for _ in range(3)]
+    for k in slow:
+        big = ctx.rng.choice([3.5, 6.0, 9.0]) if n * EPS < 0.5 else 3.5
+        plans.append({kk: (big if kk == k else EPS) for kk in keys})
     return plans
 
 
@@ -230,7 +251,7 @@ def hand_scenarios():
                "steps": [
                    {"label": "aaa", "inputs": [["name", C("obj-a")], ["v", C(1)]], "logic": ["fn", "res"],
                     "state": [["k", ["V", ["got", "v"]]], ["ka", C("a")]], "cond": ["Alpha", "thing a"]},
-                   {"label": "bbb", "inputs": [["name", C("obj-b")], ["v", C(2)]], "logic": ["fn", "res"],
+                   {"label": "bbb", "inputs": [["name", C("obj-b")], ["v", C(2)]], "logic": ["fn", "resl"],
                     "state": [["k", ["V", ["got", "v"]]], ["kb", C("b")]], "cond": ["Alpha", "thing b"]},
                    {"label": "fee", "inputs": [["w", C("x")]], "foreach": [C(["obj-fe-0", "obj-fe-1", "obj-fe-2"]), "name"],
                     "logic": ["fn", "res"], "state": [["fe", ["V", []]]]},
@@ -265,7 +286,7 @@ def scenarios(ctx: Ctx):
         yield c["scenario"] if "scenario" in c else c
     for sc in hand_scenarios():
         yield sc
-    n = 90 if ctx.quick() else 350
+    n = 65 if ctx.quick() else 300
     for i in range(n):
         sc = m.rand_scenario(ctx.rng, nsteps=ctx.rng.choice([2, 3, 4, 5, 6, 8, 10, 12, 16]), broken=False,
                              res_bias=ctx.rng.choice([0.2, 0.4, 0.6]))
